@@ -13,7 +13,7 @@ OpsVals == {EmptyArr, Arr(<<Nat2I(1)>>), Arr(<<Nat2I(2), Nat2I(1)>>), Arr(<<Nat2
             Arr(<<Ta, Ta>>), Arr(<<Ta, Tt>>), Arr(<<Nat2I(3), Nat2I(4), Nat2I(3)>>), Arr(<<Ta, Nat2I(1), Ta>>), Arr(<<Nat2I(0)>>), Arr(<<Nat2I(11)>>), Arr(<<Neg2I(65537)>>), Arr(<<I63>>),
             Arr(<<B1>>), Arr(<<Nat2I(1), EmptyArr>>), Nat2I(1), Ta, Nil, EmptyMap}
 BivVals == {B0, B1, Ta, Nat2I(1)}
-OtherLabels == {Nat2I(0), Nat2I(6), Neg2I(1), Neg2I(2), Neg2I(3), Neg2I(4), Neg2I(65537), I63max, N63, Ta}
+OtherLabels == {Nat2I(0), Nat2I(6), Nat2I(23), Nat2I(24), Neg2I(24), Neg2I(25), Neg2I(1), Neg2I(2), Neg2I(3), Neg2I(4), Neg2I(65537), I63max, N63, Ta}
 OtherVals == {Nat2I(1), B1, Tt, Bool(TRUE), U64max}
 BadLabels == {B1, I63, N63m1, Nil}
 
